@@ -57,6 +57,9 @@ PNext(c, st, t, deny) ==
       [] m = "jailed" -> IF deny THEN base ELSE [base EXCEPT !.mode = "limbo"]
       [] OTHER        -> [base EXCEPT !.mode = "limbo"]
 
+\* an arrival whose verdict is not known (not observable, or the rule may not have seen it)
+PUnknown(c, st, t) == [st EXCEPT !.mode = "limbo", !.last = t, !.hist = Append(Recent(c, st.hist, t), t)]
+
 (* ------------------------------ Layer M ------------------------------ *)
 (* mod_prison: accessDict holds a counter (windowStart, count) per key, prisonDict the *)
 (* time the key is free again.  recordAndCheck = shouldDeny; recordAccess; shouldDeny. *)
